@@ -33,6 +33,7 @@ type baseMerge struct {
 // component registry lives on the VC (sorts) ; base merges too
 type compReg struct {
 	sorts  map[string]string
+	fmeta  map[string]fieldMeta
 	merges map[string]*baseMerge
 	nbase  int
 }
@@ -78,6 +79,16 @@ func (vc *VC) baseConst(name, b string) string {
 	if name == "next" {
 		vc.assert("(> " + c + " 0)")
 	}
+	if name == "RType" && b == "b0" {
+		// nothing at or beyond the allocation counter, and nothing at nil or at sub-object refs, is a whole struct object
+		vc.assert(fmt.Sprintf("(forall ((x Int)) (! (=> (or (<= x 0) (>= x %s)) (= (select %s x) 0)) :pattern ((select %s x))))", vc.baseConst("next", b), c, c))
+	}
+	if name == "Frozen" {
+		vc.assert(fmt.Sprintf("(forall ((r Int)) (! (=> (select %s r) (< r %s)) :pattern ((select %s r))))", c, vc.baseConst("next", b), c))
+	}
+	if strings.HasPrefix(strings.Trim(name, "|"), "armed$") {
+		vc.assert(not(c)) // a defer that was never reached is not armed
+	}
 	return c
 }
 
@@ -99,8 +110,35 @@ func (vc *VC) set(s *State, name, term string) {
 // havocAll forgets every component (unknown callee).
 func (vc *VC) havocAll(s *State) {
 	oldNext := vc.getNext(s)
-	s.comp = map[string]string{}
+	keep := map[string]string{}
+	for k, v := range s.comp {
+		if strings.HasPrefix(strings.Trim(k, "|"), "armed$") || k == "Spawns" || k == "Held" {
+			keep[k] = v
+		}
+	}
+	if _, ok := vc.reg().sorts["Spawns"]; ok {
+		keep["Spawns"] = vc.get(s, "Spawns")
+	}
+	// cells of this activation's own local variables cannot be reached by a callee (unless their address escapes,
+	// which the subset excludes): they keep their values
+	type kept struct{ name, old string }
+	var cells []kept
+	if vc.localsFrom != "" {
+		for k := range vc.reg().sorts {
+			if strings.HasPrefix(strings.Trim(k, "|"), "Cell$") {
+				if _, touched := s.comp[k]; touched {
+					cells = append(cells, kept{k, s.comp[k]})
+				}
+			}
+		}
+	}
+	s.comp = keep
 	s.base = vc.newBase()
+	sort.Slice(cells, func(i, j int) bool { return cells[i].name < cells[j].name })
+	for _, c := range cells {
+		nc := vc.get(s, c.name)
+		vc.assert(fmt.Sprintf("(forall ((r Int)) (! (=> (>= r %s) (= (select %s r) (select %s r))) :pattern ((select %s r))))", vc.localsFrom, nc, c.old, nc))
+	}
 	n := vc.getNext(s)
 	vc.assert(app(">=", n, oldNext))
 }
@@ -223,10 +261,29 @@ type LValue struct {
 	parent *LValue
 }
 
+type fieldMeta struct {
+	tid  string
+	kind string // ref, slice, any, ""
+}
+
 func (vc *VC) fieldHeap(st types.Type, i int) string {
 	s := st.Underlying().(*types.Struct)
 	name := quote("H$" + canonStructName(st) + "$" + s.Field(i).Name())
 	vc.regComp(name, "(Array Int "+vc.sortOf(s.Field(i).Type())+")")
+	r := vc.reg()
+	if r.fmeta == nil {
+		r.fmeta = map[string]fieldMeta{}
+	}
+	if _, ok := r.fmeta[name]; !ok {
+		kind := ""
+		switch s.Field(i).Type().Underlying().(type) {
+		case *types.Pointer, *types.Map, *types.Chan:
+			kind = "ref"
+		case *types.Slice:
+			kind = "slice"
+		}
+		r.fmeta[name] = fieldMeta{vc.structTID(st), kind}
+	}
 	return name
 }
 
